@@ -3,7 +3,7 @@
 # belongs to must then report a violation (exit 1); the tree is restored afterwards. usage: selfcheck_fixes.sh [sha ...]
 # (6cc78fd is not in the map: its effect is subsumed by 74e4a38, a revert of it alone is not observable any more)
 cd /repo || exit 2
-MAP="b102d92:C11 4d27e88:C11 6a6abbf:C11 8e15302:C11 e9ef24f:C11 5ee9d61:C02 0c80fc3:C19 57ef30d:C09 a56b83b:C05 d3e8987:C13 911f399:C06 7fdf8dc:C08 eabc3c6:C08 70d7666:C14 8793a12:C07 90b2d70:C01 a26bd0f:C15 3b6817d:C04 ced2d73:C19 feb7d8f:C12 abaf8b2:C05 9e0a407:C17 63a7e49:C06 e540a4b:C11 3bd0596:C05 f5041a5:C02 d7f458f:C02 74e4a38:C05 8ce70d8:C06 da5a979:C07 b65adbb:C05 466c5a8:C01 19741d9:C17"
+MAP="b102d92:C11 4d27e88:C11 6a6abbf:C11 8e15302:C11 e9ef24f:C11 5ee9d61:C02 0c80fc3:C19 57ef30d:C09 a56b83b:C05 d3e8987:C13 911f399:C06 7fdf8dc:C08 eabc3c6:C08 70d7666:C14 8793a12:C07 90b2d70:C01 a26bd0f:C15 3b6817d:C04 ced2d73:C19 feb7d8f:C12 abaf8b2:C05 9e0a407:C17 63a7e49:C06 e540a4b:C11 3bd0596:C05 f5041a5:C02 d7f458f:C02 74e4a38:C05 8ce70d8:C06 da5a979:C07 b65adbb:C05 466c5a8:C01 19741d9:C17 9921b15:C12"
 for m in $MAP; do
   sha=${m%%:*}; prop=${m##*:}
   if [ $# -gt 0 ]; then case " $* " in *" $sha "*) ;; *) continue;; esac; fi
